@@ -152,6 +152,17 @@ def aztec_stuffing(rng, tier):
         for n in ((20, 58, 60, 300, 1500, 1800, 2000, 2200) if quick else (10, 20, 40, 58, 60, 85, 150, 300, 600, 1000, 1500, 1700, 1800, 1900, 2000, 2100, 2200, 2400)):
             for b in (0x00, 0xFF):
                 out.append("%d 0 %s" % (pct, (bytes([b]) * n).hex()))
+    # letter payloads around the lengths at which the automatic search moves to the next WORD SIZE (full-range layers
+    # 2->3: 6->8 bits, 8->9: 8->10, 22->23: 10->12): the bit stream is stuffed once per word size, on the same input
+    def total(L):
+        return (112 + 16 * L) * L
+    for (L, w) in (((22, 10),) if quick else ((2, 6), (8, 8), (22, 10))):
+        usable = total(L) - total(L) % w
+        for pct in ((23, 50) if quick else (0, 10, 23, 33, 50, 90)):
+            n0 = int((usable - 11) * 100 / (100 + pct)) // 5
+            for n in range(n0 - (6 if quick else 14), n0 + (7 if quick else 15)):
+                if n > 0:
+                    out.append("%d 0 %s" % (pct, "".join(rng.choice("ABCDEFGHIJKLMNOPQRSTUVWXYZ") for _ in range(n)).encode().hex()))
     # the densest encodations at the size only the largest symbols hold (a size pre-check must not assume a
     # minimum cost per byte): the two-byte pairs cost 5 bits per 2 bytes in PUNCT, digits 4 bits each
     for pct in ((0, 33) if quick else (0, 10, 23, 33)):
